@@ -351,6 +351,21 @@ def ob_cfmt(j: int, n: int) -> bool:
         return T_CFMT(x=s, y=v) == ' ' * (5 - len(s)) + s.upper() + '|' + '%03d' % v
 
 
+T_CF = {k: cooked(v, String) for k, v in {
+    'hq_d': '%(y html_quote)05d', 'hq_s': '%(x html_quote)6s', 'plain_d': '%(y)05d', 'upper_s': '%(x upper)6s', 'null_d': '%(y null="n")05d',
+    'hq_f': '%(y html_quote).2f', 'hq_dots': '%(x html_quote).2s'}.items()}
+
+
+def ob_cfmt_with_options(j: int, n: int) -> bool:
+    """the C-style format of a %(..)fmt tag is applied whatever single option accompanies it"""
+    s = SHORT[pick(j, len(SHORT))]
+    v = NUMS[pick(n, 4)]
+    with NoTracing():
+        return (T_CF['hq_d'](y=v) == '%05d' % v and T_CF['plain_d'](y=v) == '%05d' % v and T_CF['null_d'](y=v) == '%05d' % v
+                and T_CF['hq_f'](y=v) == '%.2f' % v and T_CF['hq_s'](x=s) == ref_escape('%6s' % s) and T_CF['upper_s'](x=s) == ('%6s' % s).upper()
+                and T_CF['hq_dots'](x=s) == ref_escape('%.2s' % s))
+
+
 def explain(obname, args):
     return ''
 
@@ -393,3 +408,5 @@ OBLIGATIONS.append(Ob('fmt_method', ob_fmt_method, ['len(s) <= 3', 'all(ord(ch) 
 OBLIGATIONS.append(Ob('fmt_len', ob_fmt_len, ['0 <= n <= 1200'], timeout=tier(280, 900), data='length 0..1200', selectors='fmt=collection-length thousands_commas'))
 OBLIGATIONS.append(Ob('fmt_int', ob_fmt_int, timeout=tier(250, 900), data='int n in -20..20', selectors='fmt="%d items" upper; whole-dollars; dollars-and-cents'))
 OBLIGATIONS.append(Ob('cfmt_epfs', ob_cfmt, ['0 <= j < %d' % len(SHORT), '0 <= n < 4'], timeout=tier(200, 600), data='-', selectors='EPFS %(x upper)5s|%(y)03d over short strings and numbers'))
+OBLIGATIONS.append(Ob('cfmt_with_options', ob_cfmt_with_options, ['0 <= j < %d' % len(SHORT), '0 <= n < 4'], timeout=tier(200, 600), data='-',
+                      selectors='EPFS C-formats %05d / %6s / %.2f / %.2s combined with html_quote, upper, null= over short strings and numbers'))
